@@ -154,6 +154,7 @@ def gen_case(rng, tier):
         for e in es:
             pairs[(e["src"], e["tgt"])] = pairs.get((e["src"], e["tgt"]), 0) + 1
         any_g = False
+        mixed = False
         for e in es:
             if pairs[(e["src"], e["tgt"])] > 1:
                 continue
@@ -166,10 +167,18 @@ def gen_case(rng, tier):
             if r < 0.6:
                 d, s = rng.choice(DS)
                 e["delay"], e["spread"] = C.q2s(d), C.q2s(s)
+                if d.denominator == 1 and rng.random() < 0.6:
+                    e["delay_as_int"] = True          # the mean written as a Python int (`delay: 1` in YAML): same kernel
                 any_g = True
             elif r < 0.75 and dde > 0:
                 e["delay"] = C.q2s(rng.choice([F(1, 2), F(1, 4), F(1)]))
+                if F(e["delay"]).denominator == 1 and rng.random() < 0.6:
+                    e["delay_as_int"] = True
                 any_g = True
+            elif r < 0.8 and dde == 0:
+                # a pure (discrete) delay next to distributed ones, possibly on the same source variable: it keeps its shift of round(d/dt) steps (C09)
+                e["delay"] = C.q2s(dt * rng.choice([2, 3, 4]))
+                mixed = True
         if not any_g:
             continue
         flat = M.flatten(mdl)
@@ -179,7 +188,7 @@ def gen_case(rng, tier):
         steps = 6 if tiny else rng.choice([4, 5, 6])
         case = {"mdl": mdl, "dde": dde, "run": {"T": C.q2s(dt * steps), "dt": C.q2s(dt), "solver": "euler", "vectorize": rng.random() < 0.5,
                                                  "outputs": {f"v{i}": p for i, p in enumerate(sp)}, "kwargs": ({"dde_approx": dde} if dde else {})},
-                "style": {}, "in_place": rng.random() < 0.5, "approx": tiny}
+                "style": {}, "in_place": rng.random() < 0.5, "approx": tiny, "mixed": mixed}
         try:
             aug, info = oracle_aug(case)
             rows, mb = oracle_traj_flat(aug, case["run"])
@@ -211,7 +220,7 @@ def check(tier, seed, replay=None):
         aug, info = oracle_aug(case, drv)
         orders = sorted({g["order"] for g in info})
         shared = any(g["edges"] > 1 for g in info)
-        rep.count(("vec" if case["run"]["vectorize"] else "novec") + ("-dde" if case.get("dde") else "") + ("-sharedkernel" if shared else "") + ("-tinydelays" if F(case["run"]["dt"]) < F(1, 100) else ""),
+        rep.count(("vec" if case["run"]["vectorize"] else "novec") + ("-dde" if case.get("dde") else "") + ("-sharedkernel" if shared else "") + ("-tinydelays" if F(case["run"]["dt"]) < F(1, 100) else "") + ("-intdelay" if any(e.get("delay_as_int") for e in case["mdl"]["circuit"]["edges"]) else "") + ("-puredelay" if case.get("mixed") else ""),
                   json.dumps(case, sort_keys=True), nontrivial=len(info) >= 2)
         flat0 = M.flatten(case["mdl"])
         sp = M.state_paths(flat0)
@@ -221,9 +230,6 @@ def check(tier, seed, replay=None):
         if mo.get("rows") != rows:
             raise C.HarnessError("Lean trajectory of the augmented system and the Fraction oracle disagree: " + json.dumps(case)[:400])
         if "error" in im:
-            if case["run"]["vectorize"] and im["error"] == "ValueError" and "setting an array element with a sequence" in im.get("msg", "") and "C11-inherits-C04-dot-edge" in active_kf:
-                rep.known_finding("C11-inherits-C04-dot-edge: vectorize=True run refused with ValueError('setting an array element with a sequence') - C04's dot-edge finding (loud)")
-                continue
             bad.append((case, [("raises", im)], info))
             continue
         dev = []
